@@ -1,0 +1,90 @@
+//go:build verif
+
+// Contracts for govc (contract-based deductive verification, see /verif/DESIGN.md).
+// This file contains comments only; it is compiled only with the build tag
+// `verif` and adds no code to the package.
+
+package mimetype
+
+// Ghost state of the detector tree. A *registered node* is a MIME object with a
+// detector (clones returned to callers have none). depth is a ghost field;
+// treeDepth() bounds it, which gives the tree walk an input-independent measure.
+
+//@ ghostfield MIME.depth int
+//@ ghostfun treeDepth() int
+
+//@ spec isNode(r) = MIME(r).detector != nil
+//@ spec nodeOK(r) = 0 <= MIME(r).depth && MIME(r).depth <= treeDepth() && (MIME(r).parent != nil ==> allocated(MIME(r).parent) && isNode(MIME(r).parent) && MIME(r).depth == MIME(r).parent.depth + 1) && (MIME(r).parent == nil ==> MIME(r).depth == 0) && (forall i :: 0 <= i && i < len(MIME(r).children) ==> allocated(MIME(r).children[i]) && isNode(MIME(r).children[i]) && MIME(r).children[i].parent == MIME(r))
+//@ spec TI() = (forall r :: 0 < r && r <= HEAPTOP() && isNode(r) ==> nodeOK(r)) && allocated(root) && isNode(root) && allocated(errMIME) && isNode(errMIME)
+
+//@ func mimetype.(*MIME).String
+//@   requires m != nil
+//@   inline
+//@ func mimetype.(*MIME).Extension
+//@   requires m != nil
+//@   inline
+//@ func mimetype.(*MIME).Parent
+//@   requires m != nil
+//@   inline
+//@ func mimetype.(*MIME).Is
+//@   requires m != nil
+//@ func mimetype.(*MIME).alias
+//@   requires m != nil
+//@   assigns m.aliases
+
+//@ func mimetype.newMIME
+//@   requires forall i :: 0 <= i && i < len(children) ==> children[i] != nil
+//@   assigns allfields(MIME)
+//@   ensures result != nil && fresh(result)
+
+//@ func mimetype.(*MIME).clone
+//@   requires m != nil
+//@   ensures result != nil && fresh(result)
+//@   ensures result.parent == nil && result.detector == nil && len(result.children) == 0
+//@   ensures [C02_clone_fields] result.extension == m.extension && result.aliases == m.aliases
+//@   ensures [C02_clone_mime] len(ps) == 0 ==> result.mime == m.mime
+
+//@ func mimetype.(*MIME).cloneHierarchy
+//@   requires TI() && allocated(m) && isNode(m)
+//@   ensures result != nil && fresh(result)
+//@   ensures TI()
+//@   loop 1 invariant p == nil || allocated(p) && isNode(p)
+//@   loop 1 invariant lastChild != nil && fresh(lastChild) && ret != nil && fresh(ret)
+//@   loop 1 invariant [TI] TI()
+//@   loop 1 decreases ite(p == nil, 0, p.depth + 1)
+
+//@ func mimetype.(*MIME).match
+//@   requires TI() && allocated(m) && isNode(m)
+//@   ensures result != nil && fresh(result)
+//@   ensures TI()
+//@   decreases treeDepth() - m.depth
+
+//@ func mimetype.(*MIME).flatten
+//@   requires TI() && allocated(m) && isNode(m)
+//@   ensures forall i :: 0 <= i && i < len(result) ==> allocated(result[i]) && isNode(result[i])
+//@   decreases treeDepth() - m.depth
+//@   loop 1 invariant forall i :: 0 <= i && i < len(out) ==> allocated(out[i]) && isNode(out[i])
+
+//@ func mimetype.(*MIME).lookup
+//@   requires TI() && allocated(m) && isNode(m)
+//@   ensures result == nil || allocated(result) && isNode(result)
+//@   decreases treeDepth() - m.depth
+
+//@ func mimetype.(*MIME).Extend
+//@   requires TI() && allocated(m) && isNode(m) && detector != nil
+//@   assigns m.children
+
+//@ func mimetype.Extend
+//@   requires TI() && detector != nil
+
+//@ func mimetype.Lookup
+//@   requires TI()
+//@ func mimetype.Detect
+//@   requires TI()
+//@   ensures result != nil
+//@ func mimetype.DetectReader
+//@   requires TI()
+//@   ensures result0 != nil
+//@ func mimetype.DetectFile
+//@   requires TI()
+//@   ensures result0 != nil
